@@ -192,7 +192,15 @@ def coq_payload(pl):
 
 
 def coq_env(env):
-    return C.coq_list(["(%s, %s)" % (cstr(k), "None" if v is None else "(Some %d)" % v) for k, v in env])
+    """env entries: (listen string, None | port | (port, resolved string, bound string))"""
+    out = []
+    for k, v in env:
+        if v is None:
+            out.append("(%s, None)" % cstr(k))
+        else:
+            port, res, bound = (v, k, k) if isinstance(v, int) else v
+            out.append("(%s, Some (mkAddr %d %s %s))" % (cstr(k), port, cstr(res), cstr(bound)))
+    return C.coq_list(out)
 
 
 # ------------------------------------------------------------ running
@@ -237,12 +245,14 @@ def run_impl(ctx, cases, tag, procs=6):
 def coq_steps(case, resps):
     steps = []
     for r, resp in zip(case["reqs"], resps):
-        if r["path"] == "/reset" and resp["status"] >= 500:
-            break   # a failing reset stops at a proxy chosen by Go's map iteration order: the rest of the sequence is not compared
+        cut = r["path"] == "/reset" and resp["status"] >= 500
+        # a failing reset stops at a proxy chosen by Go's map iteration order: its status is compared, the rest of the sequence is not
         after = canon_payload(resp["proxies"])
         after_l = after[1] if after[0] == "proxies" else []
-        steps.append("(mkStep %s %d %s %s)" % (coq_req(r), resp["status"], coq_payload(canon_payload(resp["body"])),
-                                               C.coq_list([coq_proxy(p) for p in after_l])))
+        steps.append("(mkStep %s %d %s %s %s)" % (coq_req(r), resp["status"], coq_payload(canon_payload(resp["body"])),
+                                                  C.coq_list([coq_proxy(p) for p in after_l]), C.coq_bool(cut)))
+        if cut:
+            break
     return C.coq_list(steps)
 
 
